@@ -453,3 +453,38 @@ MANIFEST = dict(
     level_text='C16_conservation (the ledger), C16_stored, C16_at_most_once, C16_per_user, C16_exact_when_collected, C16_update_collects and C16_cutoff are proved for every reachable state of every interleaving, any number of users, sessions, uploads, terminations and admin changes (no bound).  "Exactly once" needs the valves of all records of the user to have been collected: the collection step does that for the record activeUsers holds; for other records this is C17\'s ownership (open finding F5) - the lost amount is exactly the valve residue of records the panel has forgotten.',
     level_note='Counters are unbounded in the model (2^63 bytes to wrap).  Liveness (an upload round completes) is C17_deadlock_free plus the straight-line structure of commitUpdate.',
     design_ref='DESIGN.md section 6, C16')
+
+
+# ---- metered = carried, also when sends fail (harness/multiplex/c16_tx_test.go)
+def tx_metering(ctx, verdict):
+    import vlib
+    cases = ['tx%d TX %d %d %d' % (i, un, nok, more) for i, (un, nok, more) in enumerate([(0, 0, 3), (0, 1, 3), (0, 5, 4), (1, 0, 2), (1, 3, 3), (0, 4, 0)])]
+    inp, out = '%s/tx.in' % ctx.work, '%s/tx.out' % ctx.work
+    open(inp, 'w').write('\n'.join(cases) + '\n')
+    rc, log, dt = vlib.go_test(ctx, 'multiplex', 'TestVerifC16Tx', files=['c16_tx_test.go'], env=dict(VERIF_IN=inp, VERIF_OUT=out), timeout=300)
+    got = vlib.read_lines_by_id(out)
+    broken = []
+    if rc != 0 or len(got) < len(cases):
+        broken.append(('Go driver TestVerifC16Tx failed rc=%d' % rc, log[-3000:]))
+    for c in cases:
+        g = got.get(c.split()[0])
+        if g is None:
+            continue
+        d = dict(x.split('=') for x in g.split())
+        if d['carried'] != d['metered']:
+            f = c.split()
+            verdict.oracle_failure('tx-metered-not-carried', 'C16 oracle: a limited user\'s session (%s) whose connection accepts %s writes and then refuses: the valve metered %s bytes as sent, the connection carried %s (%s writes returned nil, %s an error) - traffic is charged exactly once, what was not carried is not charged' % (
+                'unordered' if f[2] == '1' else 'ordered', f[3], d['metered'], d['carried'], d['ok'], d['failed']),
+                dict(kind='tx-metering', case=c, observed=g, how='go test -run TestVerifC16Tx with harness/multiplex/c16_tx_test.go (VERIF_IN = the case line)'))
+            break
+    verdict.cov['tx_metering_cases'] = dict(cases=len(cases), results=[got.get(c.split()[0]) for c in cases])
+    return broken
+
+
+_corr_before_tx = correspondence
+
+
+def correspondence(ctx, verdict, pr):
+    res = _corr_before_tx(ctx, verdict, pr)
+    res['broken'] += tx_metering(ctx, verdict)
+    return res
